@@ -2,16 +2,20 @@
 (***************************************************************************)
 (* `cij run-static INPUT01 [INPUT02] -I {none,volume,pressure}`: what the   *)
 (* printed table must contain in every mode / option combination.          *)
-(* One state per invocation (mode, hasTable, system?, cellmass?, ntv).     *)
+(* One state per invocation (mode, hasTable, system?, cellmass?, ntv,       *)
+(* sample = requested sampling stride --delta-p-sample / --delta-p, 0 when  *)
+(* the option is not given).                                                *)
 (***************************************************************************)
 EXTENDS Integers, Sequences, FiniteSets, TLC
 
 Modes == {"none", "volume", "pressure"}
 NTVs == {11, 51, 201}
-VARIABLES mode, hasTable, withSystem, withMass, ntv
-cvars == <<mode, hasTable, withSystem, withMass, ntv>>
-SInit == mode = "none" /\ hasTable = FALSE /\ withSystem = FALSE /\ withMass = FALSE /\ ntv = 11
+Strides == {0, 1, 2, 3, 7}
+VARIABLES mode, hasTable, withSystem, withMass, ntv, sample
+cvars == <<mode, hasTable, withSystem, withMass, ntv, sample>>
+SInit == mode = "none" /\ hasTable = FALSE /\ withSystem = FALSE /\ withMass = FALSE /\ ntv = 11 /\ sample = 0
 Invoke == mode' \in Modes /\ hasTable' \in BOOLEAN /\ withSystem' \in BOOLEAN /\ withMass' \in BOOLEAN /\ ntv' \in NTVs
+          /\ sample' \in Strides
           /\ (withSystem' => hasTable')                  \* a crystal system only makes sense with a static table
 SSpec == SInit /\ [][Invoke]_cvars
 
@@ -21,13 +25,17 @@ AvgCols == <<"bm_V", "bm_R", "bm_VRH", "G_V", "G_R", "G_VRH", "v_p", "v_s", "v_p
 HasDensity == hasTable \/ withMass
 \* rows: the input volumes (none) or ntv grid rows (volume / pressure)
 RowRule == IF mode = "none" THEN "input_volumes" ELSE "ntv"
+\* sampling applies to the pressure mode only: every sample-th row of the ntv-point pressure grid, starting with the first
+Stride == IF mode = "pressure" /\ sample > 0 THEN sample ELSE 1
+NRows == IF mode = "none" THEN -1 ELSE (ntv + Stride - 1) \div Stride
+RowsOK == mode # "none" => /\ NRows >= 1 /\ (NRows - 1) * Stride <= ntv - 1 /\ NRows * Stride > ntv - 1
 \* where the rows sit
 RowPosition == CASE mode = "none" -> "at the input volumes"
                  [] mode = "volume" -> "ntv equally spaced volumes from min/ratio to max*ratio"
-                 [] mode = "pressure" -> "at p_min + j * delta_p, j < ntv"
+                 [] mode = "pressure" -> "at p_min + j * Stride * delta_p, j < NRows"
 Units == [V |-> "angstrom^3", F |-> "eV", P |-> "GPa", density |-> "g/cm^3", moduli |-> "GPa", velocities |-> "km/s"]
 \* every invocation prints the EoS columns; elastic columns exactly when a table is given
 ColumnsOK == /\ Len(EosCols) = 3
              /\ (hasTable => HasDensity)
-Emit == PrintT(<<"STATIC", mode, hasTable, withSystem, withMass, ntv, HasDensity, RowRule>>)
+Emit == PrintT(<<"STATIC", mode, hasTable, withSystem, withMass, ntv, HasDensity, RowRule, sample, Stride, NRows>>)
 =============================================================================
